@@ -252,6 +252,15 @@ def rule_cut(ctx, F):
                         and st[2][2][1][1] == "Some" and re.match(r"^core::option::Option<N>$", b.locals[st[2][2][0]]):
                     cut_locals.add(st[2][2][0])
         cyc = cyclic_blocks(b)
+        # the remembered cut is replaced (by what is_zone_cut says about the current owner), never emptied on the way: reading
+        # it must not consume it
+        takes = [bb for bb, t in b.calls() if bb in cyc and re.search(r"Option::<.*>::take$|mem::take(::<.*>)?$", t["fn"] or "")
+                 and t["args"] and any(x[0] in ("local", "phi") and isinstance(x[1], int) and re.match(r"^core::option::Option<N>$", b.locals[x[1]])
+                                       for x in [y for y in walk(b.term_of_operand(t["args"][0]))][:3])]
+        ctx.ob(R, b, "%s: testing an owner against the remembered cut leaves the cut in place" % nm, not takes,
+               "%s takes the remembered cut out of its variable when it tests an owner against it: after the first name below a "
+               "delegation was skipped the generator no longer knows it is below a cut, and the second glue / occluded name gets an "
+               "NSEC record" % nm, b.where(takes[0]) if takes else b.where())
         assigns = {bi for bi in cyc for st in b.blocks[bi]["s"] if st[0] == "=" and len(st[1]) == 1 and st[1][0] in cut_locals}
         heads = [h for h, th in b.calls() if re.search(r"Iterator::next$", th["fn"] or "") and h in cyc]
         lead = [h for h in heads if any(z in b.reach_from(h) for z, _ in zc)]
